@@ -12,11 +12,13 @@
 (*   [op |-> "send", id |-> k]                  send with caller-chosen id k                               *)
 (*   [op |-> "deliver", id |-> k, last |-> b]   a response frame for id k arrives (final / non-final page)  *)
 (*   [op |-> "close"]                                                                                      *)
+(*   [op |-> "recv", id |-> k]                  the caller polls the request its k-th operation (a send) was given *)
 (* Steps and the gate each one ends at ("ret" = the call returns):                                         *)
 (*   send:    borrow -> out.borrowed ; check -> out.checked ; add -> out.added ; finish -> ret              *)
 (*            (a refused send returns from whichever step refuses it; after a failed check there is no add) *)
 (*   deliver: lookup -> in.lookedup ; [remove -> in.removed] ; release -> in.released ; hand -> ret         *)
 (*   close:   cas -> close.cas ; drain -> close.drained ; closepool -> ret                                  *)
+(*   recv:    one step (a non-blocking receive on the request's channel): "ok" with the next frame, else "err" *)
 (* Setup names a thread that runs alone first (builds the starting state); "none" for no such thread.      *)
 (* CheckUnderLock / CloseOnReleaseFail = TRUE model the repaired tree; FALSE the tree as first found       *)
 (* (InFlightConcAsFound*.cfg: TLC must find the violation there - the invariants are not vacuous).         *)
@@ -40,10 +42,10 @@ VARIABLES free,     \* the pool of free ids, a FIFO (buffered channel)
 vars == <<free, table, reqs, closed, ip, pc, loc, results>>
 
 TableIds == {i \in Ids : table[i] # NoReq}
-NewReq(id, managed, owner, k) == [id |-> id, managed |-> managed, owner |-> owner, op |-> k, pend |-> <<>>, done |-> FALSE, failed |-> FALSE, ans |-> FALSE]
+NewReq(id, managed, owner, k) == [id |-> id, managed |-> managed, owner |-> owner, op |-> k, pend |-> <<>>, got |-> <<>>, done |-> FALSE, failed |-> FALSE, ans |-> FALSE, rel |-> FALSE]
 CloseReq(r, failed) == IF r.done THEN r ELSE [r EXCEPT !.done = TRUE, !.failed = failed]
 Op(t) == Progs[t][ip[t]]
-First(o) == CASE o.op = "send" -> "borrow" [] o.op = "deliver" -> "lookup" [] o.op = "close" -> "cas"
+First(o) == CASE o.op = "send" -> "borrow" [] o.op = "deliver" -> "lookup" [] o.op = "close" -> "cas" [] o.op = "recv" -> "recv"
 NoLoc == [id |-> 0, req |-> 0, err |-> "none"]
 
 Init == /\ free = [i \in 1..N |-> i]
@@ -149,7 +151,8 @@ Release(t) ==
                  /\ loc' = [loc EXCEPT ![t] = NoLoc]
                  /\ UNCHANGED free
             ELSE /\ free' = Append(free, loc[t].id)
-                 /\ Goto(t, "hand") /\ UNCHANGED <<reqs, loc>>
+                 /\ reqs' = [reqs EXCEPT ![loc[t].req].rel = TRUE]     \* (ghost) its id has been given back
+                 /\ Goto(t, "hand") /\ UNCHANGED loc
     /\ UNCHANGED <<table, closed>>
 
 \* inFlightRequest.onFrameReceived: the frame is identified by <<thread, operation index>>
@@ -194,13 +197,25 @@ Proj == [free |-> free, closed |-> closed, table |-> {<<i, table[i]>> : i \in Ta
                                             failed |-> reqs[i].failed, owner |-> reqs[i].owner, op |-> reqs[i].op]],
          results |-> results, done |-> \A t \in Threads : pc[t] = "done"]
 
+-----------------------------------------------------------------------------
+\* the caller takes the next frame out of the request an earlier send of its own returned, if there is one
+Recv(t) ==
+    /\ pc[t] = "recv"
+    /\ LET k == Op(t).id
+           i == IF k <= Len(results[t]) THEN results[t][k].req ELSE 0
+       IN IF i # 0 /\ reqs[i].pend # <<>>
+          THEN /\ reqs' = [reqs EXCEPT ![i].pend = Tail(@), ![i].got = Append(@, Head(reqs[i].pend))]
+               /\ Return(t, "ok", 0)
+          ELSE Return(t, "err", 0) /\ UNCHANGED reqs
+    /\ UNCHANGED <<free, table, closed, loc>>
+
 Runnable(t) == pc[t] # "done" /\ (Setup \in Threads /\ t # Setup => pc[Setup] = "done")
 
 Next == \E t \in Threads :
           /\ Runnable(t)
           /\ \/ Borrow(t) \/ Check(t) \/ Add(t) \/ FinishSend(t)
              \/ Lookup(t) \/ Unknown(t) \/ Remove(t) \/ Release(t) \/ Hand(t)
-             \/ Cas(t) \/ Drain(t) \/ ClosePool(t)
+             \/ Cas(t) \/ Drain(t) \/ ClosePool(t) \/ Recv(t)
           \* every transition is printed: the harness walks the graph (all schedules, or a sample that covers every
           \* edge) and forces each walk onto real goroutines
           /\ PrintT(<<"EDGE", ToJson([from |-> St, to |-> St', t |-> t, k |-> ip[t], s |-> pc[t],
@@ -237,13 +252,15 @@ Conserved == AllDone /\ ~closed =>
                /\ FreeSet \cap used = {}
                /\ FreeSet \cup used = 1..N
                /\ Len(free) = Cardinality(FreeSet)
+\* C09: once a request's final response has arrived - the caller can see it completed - its id is assignable again
+RecycledWhenSeen == \A i \in 1..Len(reqs) : reqs[i].managed /\ reqs[i].done /\ ~reqs[i].failed => reqs[i].rel
 \* C16: once close has returned and everything is quiet, every request ever accepted is completed
 ClosedCompletes == AllDone /\ closed => \A i \in AcceptedIdx : reqs[i].done
 \* C10: a frame is only ever in a request with the frame's stream id, and in at most one request
-Frames(i) == {reqs[i].pend[j] : j \in 1..Len(reqs[i].pend)}
+Frames(i) == {reqs[i].pend[j] : j \in 1..Len(reqs[i].pend)} \cup {reqs[i].got[j] : j \in 1..Len(reqs[i].got)}
 RoutedById == \A i \in 1..Len(reqs) : \A f \in Frames(i) : Progs[f[1]][f[2]].id = reqs[i].id
 OnceOnly == /\ \A i, j \in 1..Len(reqs) : i # j => Frames(i) \cap Frames(j) = {}
-            /\ \A i \in 1..Len(reqs) : Cardinality(Frames(i)) = Len(reqs[i].pend)
+            /\ \A i \in 1..Len(reqs) : Cardinality(Frames(i)) = Len(reqs[i].pend) + Len(reqs[i].got)
 \* C10: a frame whose delivery returned ok is in exactly one request
 Delivered == \A t \in Threads : \A k \in 1..Len(results[t]) :
                Progs[t][k].op = "deliver" /\ results[t][k].r = "ok" => \E i \in 1..Len(reqs) : <<t, k>> \in Frames(i)
